@@ -39,7 +39,7 @@ def targets(kind, X):
     if kind == "clf":
         return base[:1] + [("allpos", np.ones(n))]
     if kind == "count":
-        return base[:1] + [("zero", np.zeros(n))]
+        return base[:1] + [("zero", np.zeros(n)), ("large", np.array([800., 1200., 950., 1000., 700., 1500., 900., 1100.])[:n])]   # exp(full Newton step) overflows
     return base[:1]
 
 
